@@ -121,8 +121,9 @@ def run_property(pid, tier, only_key=None):
     try:
         facts.build_extractor()
         from . import selftest
-        selftest.run(ctx, chk, mod)
+        deferred = selftest.run(ctx, chk, mod) or []
         mod.run(ctx, chk)
+        selftest.settle(chk, deferred)
         return chk.finish()
     except AnalysisBroken as e:
         return chk.finish(broken=str(e))
